@@ -21,7 +21,17 @@ type Mode struct {
 	Lift bool
 }
 
+// UFApp is an application of a harness-level uninterpreted function (h.*)
+// whose value and argument values are read back from a model so that the
+// native replay can use the same objective values.
+type UFApp struct {
+	Name string
+	Args [][2]string // numerator / denominator symbol per argument ("1.0" denominators allowed)
+	Val  [2]string
+}
+
 type Script struct {
+	UFApps   []UFApp
 	Mode     Mode
 	Text     string            // declarations + definitions + assertions
 	Vars     []*term.Term      // input variables appearing in the script
